@@ -101,6 +101,29 @@ def _sort_key_kind(lib, fi, sort_term, sorted_vec):
                     paired = True       # (count, literal-of-the-cluster): the count is passed through unchanged
         if counts and zipped and paired:
             return "chars", "sort_by_key(|(chars, _)| Reverse(chars)) with chars = test_case.chars().count() dominates"
+        # loop form: the sorted vector is filled by push((test_case.chars().count(), literal)) for the items of zip(test cases, clusters)
+        sv = local.peel(sorted_vec)
+        if sv[0] == "call" and re.search(r"Vec::<T>::(?:new|with_capacity)$", sv[1]) and len(sv) > 3:
+            pushes = []
+            for bj, t2 in fi.body.calls():
+                if (callee_name(t2) or "").endswith("Vec::<T, A>::push") and len(t2["args"]) == 2:
+                    tg = local.peel(fi.defs.operand(t2["args"][0]))
+                    while tg[0] in ("ref", "deref"):
+                        tg = local.peel(tg[1])
+                    if tg[0] == "call" and tg[1] == sv[1] and tg[3] == sv[3]:
+                        pushes.append(local.peel(fi.defs.operand(t2["args"][1])))
+            good = bool(pushes)
+            for pv in pushes:
+                if not (pv[0] == "agg" and pv[1] == "tuple" and len(pv[3]) == 2):
+                    good = False
+                    continue
+                c0 = local.peel(pv[3][0])
+                if not (c0[0] == "call" and c0[1].endswith("str::Chars as std::iter::Iterator>::count") and any(x[0] == "call" and x[1].endswith("Iterator::zip") for x in local.walk(c0))):
+                    good = False
+                if not any(x[0] == "call" and x[1].endswith("Iterator::zip") for x in local.walk(pv[3][1])):
+                    good = False
+            if good:
+                return "chars", "sort_by_key(|(chars, _)| Reverse(chars)) over pairs pushed as (test_case.chars().count(), literal of the zipped cluster)"
         return None, "items are ordered by their first component, which is not the char count of the test case"
     return None, "sort key is %s, expected Reverse(len(option)) or Reverse(char count)" % local.show(kr)
 
